@@ -1,4 +1,5 @@
 import FsutilModel.Model.RecvProto
+import FsutilModel.Lemmas.C07
 /-! # C07 — Receiver speaks the documented wire protocol -/
 namespace Fsm.C07
 open R
@@ -23,5 +24,33 @@ theorem stored_is_concat (need : List Nat) (es : List Ev) (s : St) (h : run { ne
 /-- non-vacuity -/
 example : (run { need := [1] } [.rStat, .rStat, .sReq 1, .rData 1 [7, 8], .rEnd, .rData 1 [9], .rTerm 1, .sFin]).isSome = true := by
   decide
+
+/-- In every reachable state a terminator has been accepted at most once per id: a second terminator
+for an id (or content after it, see `step`) is not part of any accepted log. -/
+theorem terminator_once_per_id (need : List Nat) (es : List Ev) (s : St) (h : run { need := need } es = some s) :
+    s.termd.Nodup :=
+  termNodup_run es _ _ (by simp) h
+
+/-- FIN is the last thing the receiver sends: in every accepted log nothing after the FIN is a request
+or another FIN (so FIN is sent at most once, and no id is requested after it). -/
+theorem fin_is_the_last_send (need : List Nat) (before after : List Ev) (s : St)
+    (h : run { need := need } (before ++ .sFin :: after) = some s) :
+    ∀ e ∈ after, (∀ id, e ≠ .sReq id) ∧ e ≠ .sFin := by
+  obtain ⟨m, _, h2⟩ := run_append before (.sFin :: after) _ _ h
+  simp only [run] at h2
+  cases hs : step m .sFin with
+  | none => rw [hs] at h2; cases h2
+  | some m1 =>
+    rw [hs] at h2
+    have hf : m1.finSent = true := by
+      simp only [step] at hs
+      split at hs
+      · cases hs; rfl
+      · cases hs
+    exact (afterFin_run after m1 s hf h2).2
+
+/-- the acceptor rejects what the two theorems exclude (the premises are not vacuous: these logs are refused) -/
+example : (run { need := [0] } [.rStat, .sReq 0, .rTerm 0, .rTerm 0]).isSome = false := by decide
+example : (run { need := [0] } [.rStat, .sReq 0, .rTerm 0, .rEnd, .sFin, .sFin]).isSome = false := by decide
 
 end Fsm.C07
